@@ -6,6 +6,7 @@ import (
 	"fmt"
 	"os"
 	"path/filepath"
+	"sort"
 	"strings"
 	"time"
 
@@ -35,8 +36,16 @@ func main() {
 	solverBin := flag.String("solver", "", "primary solver command (default 'z3 -in -smt2'; e.g. 'z3-new -in -smt2')")
 	jobsFile := flag.String("jobs", "", "JSON file with pinned/seeded jobs to run concretely in the interpreter")
 	jobsOut := flag.String("jobsout", "", "output file for job outcomes")
+	grace := flag.Duration("grace", 0, "stop exploring a harness this long after its first violation not listed in -known (0 = never)")
+	known := flag.String("known", "", "site|class of known findings, separated by ;; (class * = any)")
 	flag.Parse()
 	_ = smtlog
+	knownSet := map[string]bool{}
+	for _, k := range strings.Split(*known, ";;") {
+		if k != "" {
+			knownSet[k] = true
+		}
+	}
 
 	if *hdir == "" {
 		*hdir = filepath.Join("/verif/harness", *pkg)
@@ -49,7 +58,20 @@ func main() {
 		}
 	}
 	t0 := time.Now()
-	ld, err := symgo.Load(*repo, *pkg, hfiles, nil)
+	// <hdir>/_deps/<pkg path relative to the repo>/zz_verif_*.go: verif-tagged accessor files overlaid into
+	// packages the package under test depends on (exported views of unexported state; no v* API there)
+	depOverlay := map[string]string{}
+	depRoot := filepath.Join(*hdir, "_deps")
+	filepath.Walk(depRoot, func(path string, info os.FileInfo, err error) error {
+		if err == nil && !info.IsDir() && strings.HasPrefix(info.Name(), "zz_verif_") && strings.HasSuffix(path, ".go") {
+			rel, _ := filepath.Rel(depRoot, path)
+			if b, err := os.ReadFile(path); err == nil {
+				depOverlay[filepath.Join(*repo, rel)] = string(b)
+			}
+		}
+		return nil
+	})
+	ld, err := symgo.Load(*repo, *pkg, hfiles, depOverlay)
 	if err != nil {
 		fmt.Fprintln(os.Stderr, "LOAD ERROR:", err)
 		os.Exit(2)
@@ -125,7 +147,7 @@ func main() {
 			}
 			continue
 		}
-		rep, err := symgo.Explore(ld.Prog, ld.HPkg, cfg, symgo.ExploreOpts{Workers: *workers, MaxPaths: *maxPaths, Deadline: *deadline, Verbose: *verbose})
+		rep, err := symgo.Explore(ld.Prog, ld.HPkg, cfg, symgo.ExploreOpts{Workers: *workers, MaxPaths: *maxPaths, Deadline: *deadline, Verbose: *verbose, Grace: *grace, Known: knownSet})
 		if err != nil {
 			fmt.Fprintln(os.Stderr, "ERROR:", err)
 			os.Exit(2)
@@ -141,6 +163,23 @@ func main() {
 		}
 		if *verbose {
 			fmt.Printf("  covers: %v\n", rep.Covers)
+			if os.Getenv("SYMGO_FORKHIST") != "" {
+				type kv struct {
+					k string
+					n int
+				}
+				var hs []kv
+				for k, n := range rep.ForkHist {
+					hs = append(hs, kv{k, n})
+				}
+				sort.Slice(hs, func(i, j int) bool { return hs[i].n > hs[j].n })
+				for i, h := range hs {
+					if i >= 20 {
+						break
+					}
+					fmt.Printf("  forks[%d]: %s\n", h.n, h.k)
+				}
+			}
 		}
 		if len(rep.Violations) > 0 {
 			exit = 1
